@@ -13,11 +13,13 @@ import (
 	"testing"
 	"time"
 
+	eth2p0 "github.com/attestantio/go-eth2-client/spec/phase0"
 	k1 "github.com/decred/dcrd/dcrec/secp256k1/v4"
 	"github.com/libp2p/go-libp2p/core/peer"
 	"github.com/libp2p/go-msgio/pbio"
 
 	"github.com/obolnetwork/charon/cluster"
+	"github.com/obolnetwork/charon/core"
 	"github.com/obolnetwork/charon/dkg"
 	"github.com/obolnetwork/charon/dkg/bcast"
 	dkgpb "github.com/obolnetwork/charon/dkg/dkgpb/v1"
@@ -109,7 +111,7 @@ func ceremony(ctx context.Context, c *kernel.Ctx, cer int, net *simnet.Net) {
 		sloppy = verifrt.Intn("cfg", n)
 		victim = (sloppy + 1 + verifrt.Intn("cfg", n-1)) % n
 		sloppyVal = verifrt.Intn("cfg", vals)
-		sloppyKind = verifrt.Intn("cfg", 5) // 3, 4: its round 2 / round 1 BROADCAST carries an extra cast (see below)
+		sloppyKind = verifrt.Intn("cfg", 6) // 3, 4: its round 2 / round 1 BROADCAST carries an extra cast; 5: it publishes a public share of an unrelated key (see below)
 	}
 	// A slow member (a quarter of the ceremonies): everything it sends takes up to slowMax (seconds, i.e.
 	// a sizeable fraction of a Pedersen phase; FROST has no phases) - late but never lost. Nodes then run
@@ -250,6 +252,7 @@ func ceremony(ctx context.Context, c *kernel.Ctx, cer int, net *simnet.Net) {
 			panic(err)
 		}
 		if i == sloppy && sloppyKind >= 3 {
+			liarPub, _ := tbls.SecretToPublicKey(liarSecret)
 			// The faulty member's round 2 (kind 3) or round 1 (kind 4) broadcast - really signed by every member
 			// through the broadcast protocol - carries, after its own casts, one more cast for validator sloppyVal
 			// that names the VICTIM as its source (with the faulty member's own values). A member must never take
@@ -258,6 +261,15 @@ func ceremony(ctx context.Context, c *kernel.Ctx, cer int, net *simnet.Net) {
 				return func(ctx context.Context, msgID string, msg proto.Message) error {
 					switch m := msg.(type) {
 					case *dkgpb.FrostRound2Casts:
+						if sloppyKind == 5 {
+							// kind 5: the member publishes, as its own public share of every validator, the public key
+							// of an unrelated secret. Key generation takes published shares on faith; the ceremony's
+							// completion stage (deposit data and lock hash signatures, below) is what must refuse it.
+							for _, cst := range m.GetCasts() {
+								cst.VkShare = append([]byte(nil), liarPub[:]...)
+							}
+							verifrt.Fault("sloppy-peer:publishes-public-share-of-unrelated-key")
+						}
 						if sloppyKind == 3 {
 							for _, cst := range m.GetCasts() {
 								if int(cst.GetKey().GetValIdx()) == sloppyVal {
@@ -362,10 +374,108 @@ func ceremony(ctx context.Context, c *kernel.Ctx, cer int, net *simnet.Net) {
 	if bundleMax > 0 {
 		verifrt.Probe("ceremony-completed-with-slow-but-timely-links")
 	}
-	checkShares(c, n, t, vals, results)
+	liar := -1
+	if sloppy >= 0 && sloppyKind == 5 {
+		liar = sloppy
+	}
+	if liar >= 0 || bundleMax > 0 || slow >= 0 || sloppy >= 0 || deviant >= 0 || verifrt.Intn("w", 3) == 2 {
+		// The ceremony's completion stage (dkg.Run after key generation), with the repository's own functions: every
+		// node signs the deposit messages and the lock hash with its new shares, and every node checks every partial
+		// signature against the public shares IT holds before aggregating. A ceremony is successful only if this
+		// stage succeeds at every honest node. The lying member signs the deposit messages with its real share (so
+		// that the aggregate is a valid group signature) and the lock hash with the unrelated key it published.
+		verifrt.Probe("completion-stage")
+		if err := completionStage(n, vals, results, liar); err != nil {
+			if liar >= 0 {
+				verifrt.Probe("ceremony-refused-at-completion-stage-with-lying-member")
+				return
+			}
+			if bundleMax > 0 || slow >= 0 || sloppy >= 0 || deviant >= 0 || stragglers > 0 {
+				// key generation returned at every node, but the nodes cannot complete the ceremony with what they
+				// hold (dkg.Run fails here too): not a successful ceremony. Seen on the unchanged tree with Pedersen
+				// under slow-but-timely links: the runs drift apart and nodes end with different group keys.
+				verifrt.Probe("ceremony-refused-at-completion-stage-after-faults")
+				return
+			}
+			c.Violate("C11", "ceremony-failed", "fault-free-completion-stage-returned-error", "ceremony n=%d t=%d validators=%d: %v", n, t, vals, err)
+			return
+		}
+		if liar >= 0 {
+			verifrt.Probe("ceremony-completed-with-lying-member")
+		}
+	}
+	checkShares(c, n, t, vals, results, liar)
 }
 
-func checkShares(c *kernel.Ctx, n, t, vals int, results [][]share.Share) {
+var liarSecret = tbls.PrivateKey{31: 7, 30: 1, 5: 9}
+
+// completionStage restates dkg.Run's steps after key generation over the nodes' results: signDepositMsgs /
+// aggDepositData, then signLockHash / aggLockHashSig, at every honest node.
+func completionStage(n, vals int, results [][]share.Share, liar int) error {
+	const network = "mainnet"
+	var addrs []string
+	for v := 0; v < vals; v++ {
+		addrs = append(addrs, fmt.Sprintf("0x%040x", 0xabc0+v))
+	}
+	lockHash := []byte("c11-lock-hash-0123456789abcdef..")
+	depSets, lockSets := make([]core.ParSignedDataSet, n), make([]core.ParSignedDataSet, n)
+	msgs := make([]map[core.PubKey]eth2p0.DepositMessage, n)
+	for j := 0; j < n; j++ {
+		var err error
+		depSets[j], msgs[j], err = dkg.VerifSignDepositMsgs(results[j], j+1, addrs, network, eth2p0.Gwei(32_000_000_000))
+		if err != nil {
+			return fmt.Errorf("node %d sign deposit messages: %w", j, err)
+		}
+		lockShares := results[j]
+		if j == liar {
+			lockShares = append([]share.Share(nil), results[j]...)
+			for k := range lockShares {
+				lockShares[k].SecretShare = liarSecret
+			}
+		}
+		if lockSets[j], err = dkg.VerifSignLockHash(j+1, lockShares, lockHash); err != nil {
+			return fmt.Errorf("node %d sign lock hash: %w", j, err)
+		}
+	}
+	for h := 0; h < n; h++ {
+		if h == liar {
+			continue
+		}
+		dep, lock := map[core.PubKey][]core.ParSignedData{}, map[core.PubKey][]core.ParSignedData{}
+		shareMap := map[core.PubKey]share.Share{}
+		for _, sh := range results[h] {
+			pk, err := core.PubKeyFromBytes(sh.PubKey[:])
+			if err != nil {
+				return err
+			}
+			shareMap[pk] = sh
+		}
+		for j := 0; j < n; j++ {
+			for _, sh := range results[h] { // in the order of node h's validators: harness code iterates no map
+				pk, _ := core.PubKeyFromBytes(sh.PubKey[:])
+				dps, ok1 := depSets[j][pk]
+				lps, ok2 := lockSets[j][pk]
+				if !ok1 || !ok2 {
+					// dkg.Run's exchange waits for every member's partial signature for every validator key
+					return fmt.Errorf("node %d waits for ever for node %d's partial signatures for validator key %x, which node %d does not hold", h, j, sh.PubKey[:6], j)
+				}
+				dep[pk] = append(dep[pk], dps)
+				lock[pk] = append(lock[pk], lps)
+			}
+		}
+		if _, err := dkg.VerifAggDepositData(dep, results[h], msgs[h], network); err != nil {
+			return fmt.Errorf("node %d aggregate deposit data: %w", h, err)
+		}
+		if err := dkg.VerifAggLockHashSig(lock, shareMap, lockHash); err != nil {
+			return fmt.Errorf("node %d aggregate lock hash signatures: %w", h, err)
+		}
+	}
+	return nil
+}
+
+// faulty >= 0: that member lied about its own public share; what the HONEST members hold is judged (its own view and
+// its secret share are its own business).
+func checkShares(c *kernel.Ctx, n, t, vals int, results [][]share.Share, faulty int) {
 	for i := range results {
 		if len(results[i]) != vals {
 			c.Violate("C11", "share-count", "wrong-number-of-validators", "node %d returned %d shares for %d validators", i, len(results[i]), vals)
@@ -375,12 +485,19 @@ func checkShares(c *kernel.Ctx, n, t, vals int, results [][]share.Share) {
 	msg := []byte("c11 test message")
 	for v := 0; v < vals; v++ {
 		ref := results[0][v]
+		if faulty == 0 {
+			ref = results[1][v]
+		}
 		if len(ref.PublicShares) != n {
 			c.Violate("C11", "public-shares", "public-share-count", "validator %d: node 0 holds %d public shares, want %d", v, len(ref.PublicShares), n)
 		}
 		secrets := map[int]tbls.PrivateKey{}
 		for i := 0; i < n; i++ {
 			s := results[i][v]
+			if i == faulty {
+				secrets[i+1] = s.SecretShare
+				continue
+			}
 			if s.PubKey != ref.PubKey {
 				c.Violate("C11", "group-key", "nodes-disagree-on-group-public-key", "validator %d: node %d group key %x differs from node 0's %x", v, i, s.PubKey[:8], ref.PubKey[:8])
 			}
